@@ -202,6 +202,30 @@ JsParts(v) == CASE v.t = "arr" -> <<"[">> \o JsItems(v.items, 1) \o <<"]">>
                 [] v.t = "fn" -> <<"(function(){})">>
                 [] OTHER -> <<[lit |-> v]>>
 
+(* ---- length-changing script steps on containers nested in a *Doc ------------------- *)
+(* (Bridge!DocMutate): afterwards the script, the Go variable and Export must agree     *)
+In1 == [Tags |-> <<S!GStr(<<105>>)>>, Sizes |-> <<S!GInt("int8", I(7))>>, N |-> I(1)]
+In2 == [Tags |-> <<S!GStr(<<112>>), S!GStr(<<113>>)>>, Sizes |-> <<>>, N |-> I(2)]
+Doc0 == [k |-> "doc", Title |-> <<116>>, Tags |-> <<S!GStr(<<97>>), S!GStr(U_smile)>>,
+         Sizes |-> <<S!GInt("int8", I(1)), S!GInt("int8", I(2)), S!GInt("int8", I(-128))>>,
+         Any |-> <<S!GX([x |-> "num", n |-> I(1)]), S!GX([x |-> "str", s |-> <<120>>])>>,
+         In |-> In1, PIn |-> In2, Arr |-> <<S!GInt("int8", I(1)), S!GInt("int8", I(2))>>,
+         SIn |-> <<In2>>, AIn |-> <<In1, In2>>, Grid |-> <<<<S!GInt("int8", I(1))>>, <<S!GInt("int8", I(2)), S!GInt("int8", I(3))>>>>]
+MutSels == {"Tags", "Sizes", "Any", "In.Tags", "In.Sizes", "PIn.Tags", "PIn.Sizes", "Grid0", "Grid1", "SIn0.Tags", "AIn0.Tags"}
+MutVals(sel) == CASE S!DocElemKind(sel) = "string" -> {S!StrV(<<99>>), S!IntV(5)}
+                  [] S!DocElemKind(sel) = "iface" -> {S!BoolV(TRUE), S!StrV(<<115>>)}
+                  [] OTHER -> {S!IntV(5), S!IntV(300), S!NumV(S!NumNeg(Canon(FALSE, <<3>>, -1)))}
+MutOpsOf(sel) ==
+    LET n == Len(S!DocSlice(Doc0, sel))  elem == S!IsElementPath(sel) IN
+    {[op |-> "jspush", v |-> v, js |-> JsParts(v)] : v \in MutVals(sel)}
+    \cup {[op |-> "jswrite", i |-> n, v |-> v, js |-> JsParts(v)] : v \in MutVals(sel)}
+    \cup {[op |-> "jspop"]} \cup {[op |-> "jssetlen", n |-> m] : m \in {j \in {0, n - 1, n + 1} : j >= 0}}
+    \cup (IF elem THEN {} ELSE {[op |-> "jsshift"], [op |-> "jssplice"]}
+                              \cup {[op |-> "jsunshift", v |-> v, js |-> JsParts(v)] : v \in {vv \in MutVals(sel) : S!ElemConv(vv, S!DocElemKind(sel)).thr = "" /\ L!ElemConv(vv, S!DocElemKind(sel)).thr = ""}})
+Muts == {[fam |-> "mut", where |-> w, d |-> Doc0, sel |-> sel, op |-> op] :
+            w \in {"ptr", "inslice", "inmap"}, sel \in MutSels, op \in UNION {MutOpsOf(ss) : ss \in MutSels}}
+MutsOK == {c \in Muts : c.op \in MutOpsOf(c.sel)}
+
 (* ---- expectations ---------------------------------------------------------- *)
 IsScalar(g) == S!Base(g).k \notin {"slice", "map", "struct", "imap", "nstruct"}
 ConvR(r) == [thr |-> r.thr, v |-> r.v, log |-> r.log]
@@ -213,7 +237,7 @@ Expect(B(_), c) ==        \* B(op) selects the instance: see Emit
                  IN  [js |-> j, ty |-> B("TypeOf")[j],
                       \* Bridge!ScriptString and Bridge!ToStringG are the same expression except for the integer kinds:
                       \* the shortest-digits search of 9.8.1 is evaluated once
-                      str |-> IF g.k \in S!IntKinds THEN B("ScriptString")[g] ELSE ts, exp |-> B("Export")[g],
+                      str |-> IF S!Base(g).k \in S!IntKinds THEN B("ScriptString")[g] ELSE ts, exp |-> B("Export")[g],
                       toInt |-> B("ToIntegerG")[g], toFloat |-> B("ToFloatG")[g], toStr |-> ts, toBool |-> B("ToBooleanG")[g],
                       json |-> B("GoJSON")[g]]
             ELSE [js |-> j, ty |-> B("TypeOf")[j], forin |-> S!ForInKeys(j), exp |-> B("Export")[g], json |-> B("GoJSON")[g]]
@@ -226,6 +250,9 @@ Expect(B(_), c) ==        \* B(op) selects the instance: see Emit
                       toStr |-> ConvR(B("ToStringVV")[v]), toBool |-> S!ToBooleanV(v)]
                 ELSE [base |-> base]
       [] c.fam = "callerr" -> [err |-> S!CallErr(c.what)]
+      [] c.fam = "mut" ->
+            LET r == B("DocMutate")[c]
+            IN  [thr |-> r.thr, ret |-> r.ret, js |-> S!PlacedJS(c.where, r.d), go |-> r.d, export |-> r.d, same |-> TRUE]
       [] c.fam = "call" ->
             IF c.route = "otto" /\ c.th.k = "gonil" /\ c.src = "O.m"
             THEN [S!CallObs(c.th, c.args) EXCEPT !.th = [k |-> "O"]]       \* otto.go Otto.Call: a nil this takes the this of the call expression
@@ -246,6 +273,7 @@ TabS(op) == CASE op = "ToJS" -> [g \in {cs.g} |-> S!ToJS(g)]
               [] op = "ToIntegerV" -> [v \in {cs.v} |-> S!ToIntegerV(v)]
               [] op = "ToFloatV" -> [v \in {cs.v} |-> S!ToFloatV(v)]
               [] op = "ToStringVV" -> [v \in {cs.v} |-> S!ToStringVV(v)]
+              [] op = "DocMutate" -> [c \in {cs} |-> S!DocMutate(c.d, c.sel, c.op)]
 TabL(op) == CASE op = "ToJS" -> [g \in {cs.g} |-> L!ToJS(g)]
               [] op = "TypeOf" -> [j \in {L!ToJS(cs.g)} |-> L!TypeOfJ(j)]
               [] op = "ScriptString" -> [g \in {cs.g} |-> L!ScriptString(g)]
@@ -260,6 +288,7 @@ TabL(op) == CASE op = "ToJS" -> [g \in {cs.g} |-> L!ToJS(g)]
               [] op = "ToIntegerV" -> [v \in {cs.v} |-> L!ToIntegerV(v)]
               [] op = "ToFloatV" -> [v \in {cs.v} |-> L!ToFloatV(v)]
               [] op = "ToStringVV" -> [v \in {cs.v} |-> L!ToStringVV(v)]
+              [] op = "DocMutate" -> [c \in {cs} |-> L!DocMutate(c.d, c.sel, c.op)]
 
 Js(c) == IF c.fam = "j2g" THEN JsParts(c.v) ELSE <<>>
 
@@ -270,7 +299,7 @@ Js(c) == IF c.fam = "j2g" THEN JsParts(c.v) ELSE <<>>
 (* doubles, random strings) - the specification still computes every         *)
 (* expectation.                                                              *)
 K == 64
-AllCases == G2J \cup J2G \cup Calls \cup CallErrs
+AllCases == G2J \cup J2G \cup Calls \cup CallErrs \cup MutsOK
 FileCases == ndJsonDeserialize("c15cases.ndjson")
 CaseSeq == IF Src = "file" THEN FileCases ELSE SetToSeq(AllCases)
 None == [fam |-> "none"]
